@@ -150,6 +150,11 @@ func (r *armoredReader) Read(p []byte) (int, error) {
 	if len(line) > format.ColumnsPerLine {
 		return 0, r.setErr(errors.New("column limit exceeded"))
 	}
+	if bytes.IndexByte(line, '\r') >= 0 {
+		// base64 decoding silently skips CR and LF; only the CR of a CRLF line
+		// ending (already removed) is tolerated.
+		return 0, r.setErr(errors.New("unexpected carriage return in armored body"))
+	}
 	if len(line) == 0 {
 		// The encoder never emits an empty line: an empty body is encoded as
 		// no line at all, and a full last line is followed by the END line.
